@@ -20,6 +20,7 @@ func init() {
 				{K: "tick", Arg: 0}, {K: "tick", Arg: 1}, {K: "tick", Arg: 2}, {K: "tick", Arg: 3},
 				{K: "resp", I: 0}, {K: "failwrite"}, {K: "close"},
 				{K: "garbage", Arg: 3}, // a datagram with A's id whose first attribute overruns: dropped, the schedule goes on
+				{K: "readerr", Arg: 3}, // the peer's port was unreachable a moment ago (ICMP, reported by Read): nothing is re-sent for that
 			}
 			eps := []string{"drain+close", "close"}
 			cliHistories(c, "C11", cliOpts{MsgSize: []int{2052}}, alpha, depth, eps, "H")
@@ -30,7 +31,7 @@ func init() {
 			cliHistories(c, "C11", cliOpts{MsgSize: []int{24}, StaleFields: true}, alpha, depth-2, eps, "Hstale")
 			// time scales: early ticks (the collector fires between deadlines), and RTOs of 2 minutes, 100 and 250 years
 			// (deadlines beyond what a 64-bit nanosecond count since 1970 can hold)
-			slow := []cliEv{{K: "start", I: 0}, {K: "tick", Arg: 4}, {K: "tick", Arg: 5}, {K: "tick", Arg: 0}, {K: "tick", Arg: 1}, {K: "resp", I: 0}, {K: "failwrite"}, {K: "failwrite", Arg: 1}, {K: "garbage", Arg: 2}, {K: "garbage", Arg: 4}}
+			slow := []cliEv{{K: "start", I: 0}, {K: "tick", Arg: 4}, {K: "tick", Arg: 5}, {K: "tick", Arg: 0}, {K: "tick", Arg: 1}, {K: "resp", I: 0}, {K: "failwrite"}, {K: "failwrite", Arg: 1}, {K: "garbage", Arg: 2}, {K: "garbage", Arg: 4}, {K: "readerr", Arg: 5}}
 			cliHistories(c, "C11", cliOpts{MsgSize: []int{2052}}, slow, depth, eps, "Hearly")
 			// a clock that is stepped back: what the collector saw before the step says nothing about transactions
 			// started after it
@@ -103,8 +104,8 @@ func init() {
 				{K: "start", I: 0}, {K: "start", I: 1}, {K: "start", I: 2},
 				{K: "resp", I: 0}, {K: "resp", I: 1}, {K: "resp", I: 2},
 				{K: "resp", I: 0, Arg: 1}, {K: "resp", I: 1, Arg: 2}, {K: "unknown"}, {K: "unknown", Arg: 1},
-				{K: "garbage", Arg: 0}, {K: "garbage", Arg: 1}, {K: "garbage", Arg: 2}, {K: "garbage", Arg: 3}, {K: "garbage", Arg: 4},
-				{K: "resp", I: 2, Arg: 3}, {K: "tick", Arg: 1}, {K: "failagent"}, {K: "readerr", Arg: 3}, {K: "readerr", Arg: 0},
+				{K: "garbage", Arg: 0}, {K: "garbage", Arg: 1}, {K: "garbage", Arg: 2}, {K: "garbage", Arg: 3}, {K: "garbage", Arg: 4}, {K: "garbage", Arg: 5}, {K: "garbage", Arg: 6},
+				{K: "resp", I: 2, Arg: 3}, {K: "tick", Arg: 1}, {K: "failagent"}, {K: "readerr", Arg: 3}, {K: "readerr", Arg: 0}, {K: "failprocess"},
 			}
 			eps := []string{"drain+close"}
 			cliHistories(c, "C12", cliOpts{Fallback: true, PoolFanout: true}, alpha, depth-1, eps, "Hfb")
@@ -189,6 +190,7 @@ func init() {
 				{K: "start", I: 0}, {K: "do", I: 1}, {K: "resp", I: 0}, {K: "resp", I: 1},
 				{K: "tick", Arg: 1}, {K: "failwrite"}, {K: "failwrite", Arg: 1}, {K: "readerr", Arg: 1}, {K: "readerr", Arg: 2}, {K: "readerr", Arg: 3}, {K: "close"},
 				{K: "garbage", Arg: 4}, // the first part of a message (a header that announces more than has arrived)
+				{K: "unknown"},         // a datagram for the fallback handler
 			}
 			optSets := []cliOpts{
 				{}, {NoConnClose: true}, {Fallback: true}, {NoRetransmit: true}, {ConnCloseErr: true}, {AgentCloseErr: true},
@@ -196,6 +198,7 @@ func init() {
 				{Reentrant: true}, {Reentrant: true, NoRetransmit: true},
 				{ConnCloseErr: true, AgentCloseErr: true, SentinelErrs: true}, {AgentCloseErr: true, SentinelErrs: true, NoConnClose: true},
 				{ConnCloseErr: true, CloseTimeout: true}, {ConnCloseErr: true, CloseTimeout: true, AgentCloseErr: true, NoRetransmit: true},
+				{Fallback: true, Reentrant: true},
 			}
 			for i, o := range optSets {
 				d := depth
@@ -208,7 +211,7 @@ func init() {
 			tickAfter := cliEv{K: "tick", Arg: 1}
 			cl := cliEv{K: "close"}
 			n := 0
-			for _, o := range []cliOpts{{}, {NoConnClose: true}, {ConnCloseErr: true, AgentCloseErr: true}, {Fallback: true, NoConnClose: true}, {Reentrant: true}} {
+			for _, o := range []cliOpts{{}, {NoConnClose: true}, {ConnCloseErr: true, AgentCloseErr: true}, {Fallback: true, NoConnClose: true}, {Reentrant: true}, {Fallback: true, Reentrant: true}} {
 				for _, sc := range []cliScenario{
 					{Threads: [][]cliEv{nil, {cl}, {cl}}},
 					{Threads: [][]cliEv{nil, {cl}, {cl}, {cl}}},
@@ -217,6 +220,8 @@ func init() {
 					{Threads: [][]cliEv{nil, {cl}, {ev("do", 0)}, {ev("resp", 0)}}},
 					{Threads: [][]cliEv{nil, {cl}, {ev("indicate", 0)}, {{K: "setrto", Arg: 5}}}},
 					{Setup: []cliEv{ev("start", 0)}, Threads: [][]cliEv{nil, {cl}, {ev("resp", 0)}}},
+					{Threads: [][]cliEv{nil, {cl}, {{K: "unknown"}}}},
+					{Threads: [][]cliEv{nil, {cl}, {{K: "unknown"}}, {ev("indicate", 0)}}},
 					{Setup: []cliEv{ev("start", 0)}, Threads: [][]cliEv{nil, {cl}, {tickAfter}}},
 					{Setup: []cliEv{ev("start", 0), ev("start", 1)}, Threads: [][]cliEv{nil, {cl}, {tickAfter}, {ev("resp", 1)}}},
 					{Setup: []cliEv{ev("start", 0)}, Threads: [][]cliEv{nil, {cl}, {ev("do", 1)}}},
